@@ -14,7 +14,6 @@ impl Clone for JsonValue { #[verifier::external_body] fn clone(&self) -> (r: Sel
 pub uninterp spec fn jv<T>(v: T) -> JsonValue;       // serde_json::json!(v)
 #[verifier::external_body]
 pub struct Vars { _p: u8 }
-impl Clone for Vars { #[verifier::external_body] fn clone(&self) -> (r: Self) ensures r == *self { unimplemented!() } }
 impl Vars {
     pub uninterp spec fn view(&self) -> Map<Seq<char>, JsonValue>;
     // model/vars.rs (ASSUMED map semantics): new / with / append (serde_json::Map::append MOVES all entries out of `other`)
@@ -22,6 +21,11 @@ impl Vars {
     pub fn new() -> (r: Self) ensures r@ == Map::<Seq<char>, JsonValue>::empty() { unimplemented!() }
     #[verifier::external_body]
     pub fn with<T>(self, name: &str, value: T) -> (r: Self) ensures r@ == self@.insert(name@, jv(value)) { unimplemented!() }
+    // extend: the entries of `vars` are copied in and overwrite existing keys (serde_json::Map::extend)
+    #[verifier::external_body]
+    pub fn extend(self, vars: Vars) -> (r: Self) ensures r@ == self@.union_prefer_right(vars@) { unimplemented!() }
+    #[verifier::external_body]
+    pub fn set<T>(&mut self, name: &str, value: T) ensures final(self)@ == old(self)@.insert(name@, jv(value)) { unimplemented!() }
     #[verifier::external_body]
     pub fn append(&mut self, other: &mut Vars)
         ensures final(self)@ == old(self)@.union_prefer_right(old(other)@), final(other)@ == Map::<Seq<char>, JsonValue>::empty() { unimplemented!() }
@@ -30,6 +34,7 @@ impl Vars {
 pub struct Act { pub id: String, pub uses: String, pub params: JsonValue, pub options: Vars, pub rest: ActRest }
 #[verifier::external_body]
 pub struct ActRest { _p: u8 }
+impl Clone for Vars { #[verifier::external_body] fn clone(&self) -> (r: Self) ensures r == *self { unimplemented!() } }
 impl Clone for Act { #[verifier::external_body] fn clone(&self) -> (r: Self) ensures r == *self { unimplemented!() } }
 impl Default for Act { #[verifier::external_body] fn default() -> (r: Self) { unimplemented!() } }
 pub struct ActError {}
